@@ -111,3 +111,18 @@ def candles(rng, n, regime=None):
 
 def hexs(xs):
     return " ".join("%016x" % f2bits(x) for x in xs)
+
+
+def trend_candles(r, legs):
+    """legs: list of (steps, drift per step); valid candles with a new extreme on (almost) every bar"""
+    out = []
+    p = 100.0
+    for n, drift in legs:
+        for _ in range(n):
+            o = p
+            p = p * (1.0 + drift * (0.6 + 0.8 * r.unit()))
+            c = p
+            hi = max(o, c) * (1 + 0.0004 * r.unit())
+            lo = min(o, c) * (1 - 0.0004 * r.unit())
+            out.append((o, hi, lo, c, float(r.range(1, 5000))))
+    return out
